@@ -227,6 +227,10 @@ class Interp:
         if ctx.depth > self.max_depth:
             raise AnalysisError(f"inlining depth exceeded at {fi.key}")
         self.functions_visited[fi.key] = self.functions_visited.get(fi.key, 0) + 1
+        cdecos = [d for d in fi.decorators if d.split("(")[0].split(".")[-1] in ("cache", "lru_cache", "cached_property", "memoize", "memoized")]
+        if cdecos:
+            T.HAZARDS[("CACHED", fi.key)] = (f"{fi.qualname} is decorated with {cdecos} and was inlined as if it were not: calls after the first with an equal key return the "
+                                              f"remembered result (the key of a method is `self` by its __hash__/__eq__), which this analysis does not model")
         saved_env = st.env
         st.env = dict(bound)
         nctx = Ctx(fi, fi.module, ctx.depth + 1, ctx.where_stack + (fi.qualname.split(".")[-1],))
@@ -1298,6 +1302,11 @@ class Interp:
             try:
                 return self.lift(self.prog.fold(mod, mod.constants[name]))
             except NotConst:
+                init = mod.constants[name]
+                lazy = (isinstance(init, ast.GeneratorExp) or (isinstance(init, ast.Call) and isinstance(init.func, ast.Name) and init.func.id in ("map", "filter", "zip", "iter", "reversed", "enumerate")))
+                if lazy and ctx.fi is not None:
+                    T.HAZARDS[("ONESHOT", f"{mod.name}:{name}")] = (f"module-level {name} = {ast.unparse(init)[:80]} is a one-shot iterator; {ctx.fi.qualname} consumes it: "
+                                                                   f"the first call drains it and every later call sees it empty")
                 v = self.module_const_value(mod, name)
                 if v is not None:
                     return v
